@@ -185,7 +185,7 @@ def gen_e2e(res, seed, n_runs):
         try:
             kw = dict(desired_solutions=rng.choice([2, 5]), max_generations=rng.choice([4, 10]), population_size=rng.choice([10, 25]))
             sols = common.guarded(lambda: fan.fuzz(**kw), 15)
-        except Exception as e:
+        except (Exception, common.ImplTimeout) as e:
             res.bump("e2e_raised_" + type(e).__name__)
             continue
         res.bump("e2e_runs")
